@@ -354,13 +354,28 @@ pub fn concretise(s: &Shader) -> String {
     if s.globals.iter().any(|g| g.space == "push") || true {
         // no enable directives needed for naga 24
     }
+    let has = |d: &str| s.decor.iter().any(|x| x == d);
+    if has("diagnostic") {
+        let _ = writeln!(out, "diagnostic(off, derivative_uniformity);");
+    }
+    if has("const_assert") {
+        let _ = writeln!(out, "const_assert 1u + 1u == 2u;");
+    }
     for a in &s.aliases {
         let _ = writeln!(out, "alias {} = {};", a.name, ty_wgsl(&a.ty));
     }
     for d in &s.structs {
         let _ = writeln!(out, "struct {} {{", d.name);
-        for m in &d.members {
+        // interpolation attributes only where no vertex entry takes the struct (vertex inputs carry none)
+        let vertex_input = s.entries.iter().any(|e| e.stage == "vertex" && e.params.iter().any(|p| matches!(p, Param::Struct { ty, .. } if ty == &d.name)));
+        for (mi, m) in d.members.iter().enumerate() {
             let mut attrs = io_attr(&m.io, &m.ty);
+            if has("invariant") && matches!(&m.io, Some(Io::Builtin { b }) if b == "position") {
+                attrs.push_str("@invariant ");
+            }
+            if has("interpolate") && !vertex_input && matches!(&m.io, Some(Io::Loc { blend: false, .. })) && !is_int(&m.ty) && matches!(&m.ty, Ty::Scalar { .. } | Ty::Vec { .. }) {
+                attrs.push_str(["@interpolate(linear) ", "@interpolate(perspective, sample) ", "@interpolate(perspective, centroid) ", "@interpolate(flat) "][mi % 4]);
+            }
             if let Some(a) = m.align {
                 let _ = write!(attrs, "@align({a}) ");
             }
